@@ -658,3 +658,76 @@ pub fn has_bang_single_object(doc: &Value) -> bool {
     }
     doc.as_object().map_or(false, obj)
 }
+
+/// The same document after a trip through JSON text in which every non-integer number is spelled
+/// differently (exponent form, or a trailing zero): the parsed value must be the same.
+pub fn respelled(doc: &Value) -> Value {
+    fn emit(v: &Value, out: &mut String) {
+        match v {
+            Value::Number(n) if n.is_f64() => {
+                let f = n.as_f64().unwrap();
+                let plain = serde_json::to_string(v).unwrap();
+                let alt = if plain.contains('e') || plain.contains('E') {
+                    plain.replace('e', "E")
+                } else if plain.contains('.') {
+                    format!("{}0", plain)
+                } else {
+                    plain.clone()
+                };
+                // only keep the alternative when it denotes the same double
+                if alt.parse::<f64>().ok() == Some(f) && (f != 0.0 || alt.starts_with('-') == f.is_sign_negative()) {
+                    out.push_str(&alt)
+                } else {
+                    out.push_str(&plain)
+                }
+            }
+            Value::Array(a) => {
+                out.push('[');
+                for (i, x) in a.iter().enumerate() {
+                    if i > 0 {
+                        out.push(',');
+                    }
+                    emit(x, out);
+                }
+                out.push(']');
+            }
+            Value::Object(o) => {
+                out.push('{');
+                for (i, (k, x)) in o.iter().enumerate() {
+                    if i > 0 {
+                        out.push(',');
+                    }
+                    out.push_str(&serde_json::to_string(k).unwrap());
+                    out.push(':');
+                    emit(x, out);
+                }
+                out.push('}');
+            }
+            other => out.push_str(&serde_json::to_string(other).unwrap()),
+        }
+    }
+    let mut text = String::new();
+    emit(doc, &mut text);
+    serde_json::from_str(&text).unwrap_or_else(|_| doc.clone())
+}
+
+/// Equality of JSON values by what they denote (numbers by numeric value, not by spelling).
+pub fn same_json_value(a: &Value, b: &Value) -> bool {
+    match (a, b) {
+        (Value::Number(x), Value::Number(y)) => {
+            if let (Some(i), Some(j)) = (x.as_i64(), y.as_i64()) {
+                i == j
+            } else if let (Some(i), Some(j)) = (x.as_u64(), y.as_u64()) {
+                i == j
+            } else {
+                match (x.as_f64(), y.as_f64()) {
+                    (Some(f), Some(g)) => f == g && f.is_sign_negative() == g.is_sign_negative(),
+                    _ => false,
+                }
+            }
+        }
+        (Value::Array(x), Value::Array(y)) => x.len() == y.len() && x.iter().zip(y.iter()).all(|(p, q)| same_json_value(p, q)),
+        (Value::Object(x), Value::Object(y)) => x.len() == y.len() && x.iter().all(|(k, p)| y.get(k).map_or(false, |q| same_json_value(p, q))),
+        _ => a == b,
+    }
+}
